@@ -224,8 +224,79 @@ def pending_io_and_cycles(F, S, R):
               "last iteration of a chunk are lost or suspension is charged", [res.where(late[0][0]) if late else res.where()])
 
 
+def resumed_budgets(F, S, R):
+    """F22 / F23 (fixed) and F24 (known finding). The limit handed to Scheduler::run / chunk_run is relative to THAT call. Whoever resumes a
+    script group that already consumed cycles must hand it what is left of the transaction's limit:
+    (F22) complete(): max_cycles - cycles of finished groups - total_cycles kept in the suspended state;
+    (F23) chunk_run_with_signal, Resume arm: max_cycles - scheduler.consumed_cycles();
+    (F24) load_data_as_code must register with the snapshot context only the bytes that came from the cell (content_size), not the zero padding up
+          to memory_size: after suspend/resume the padding pages are reloaded from the cell (different memory, or MemPageUnalignedAccess -> panic)."""
+    cp = F.one("ckb_script", r"^ckb_script::verify::TransactionScriptsVerifier::<DL, V, M>::complete$")
+    R.fn(cp)
+    bodies = [cp] + list(cp.nested())
+    vg = [c for c in cp.calls_to(r"::verify_group_with_chunk$") if K.src_match(cp.operand_sources(c.args[3]), [r"field:.*TransactionState\.state$|field:.*\.state$"]) and not K.src_match(cp.operand_sources(c.args[3]), [r"agg:core::option::Option::None"])]
+    R.sites += len(vg)
+    if not vg:
+        R.bad("prov/complete-budget/anchor-lost", "the call that resumes the suspended group (verify_group_with_chunk(.., &snap.state)) not found in complete()", [cp.where()])
+    else:
+        srcs = set(cp.operand_sources(vg[0].args[2]))
+        reads_total = any(re.search(r"FullSuspendedState\.total_cycles$", x) for b in bodies for x in _all_field_reads(b))
+        subs = [c for b in bodies for c in b.calls if c.callee.endswith("checked_sub") or c.callee.endswith("saturating_sub")]
+        if reads_total and len(subs) >= 2 and K.src_match(srcs, [r"call:.*checked_sub$|call:.*and_then"]):
+            R.ok("prov/complete-budget", "the suspended group is resumed with max_cycles minus the finished groups' cycles minus the cycles it consumed before the suspension", [vg[0].where()])
+        else:
+            R.bad("prov/complete-budget", "complete() resumes the suspended group without deducting the cycles it consumed before the suspension (FullSuspendedState.total_cycles): "
+                  "a budget smaller than the uninterrupted cost succeeds (F22)", [vg[0].where()])
+    # F23
+    sg = [b for b in F.bodies_of_crate("ckb_script") if re.search(r"TransactionScriptsVerifier::<DL, V, M>::chunk_run_with_signal", b.path)]
+    runs = []
+    for b in sg:
+        for c in b.calls_to(r"scheduler::Scheduler::<.*>::run$"):
+            runs.append((b, c))
+    R.sites += len(runs)
+    if len(runs) < 1:
+        R.bad("prov/signal-budget/anchor-lost", "Scheduler::run (called once per Resume command, in a loop) not found in chunk_run_with_signal", [sg[0].where()] if sg else [])
+    else:
+        ok_n = 0
+        for b, c in runs:
+            R.fn(b)
+            srcs = set(b.operand_sources(c.args[1]))
+            if K.src_match(srcs, [r"call:.*Scheduler::<.*>::consumed_cycles$"]) or [1 for x in b.calls_to(r"Scheduler::<.*>::consumed_cycles$") if b.dominates(x.bb, c.bb) and [y for y in b.calls_to(r"::checked_sub$") if b.dominates(y.bb, c.bb)]]:
+                ok_n += 1
+        if ok_n == len(runs):
+            R.ok("prov/signal-budget", "every Scheduler::run (one per Resume command) is given max_cycles minus what the scheduler already consumed", [c.where() for _, c in runs])
+        else:
+            R.bad("prov/signal-budget", "a resumed Scheduler::run in chunk_run_with_signal is handed the full max_cycles again: a transaction paused k times may spend (k+1) x max_cycles (F23)", [c.where() for _, c in runs])
+    # F24
+    lc = F.one("ckb_script", r"syscalls::load_cell_data::LoadCellData::<DL>::load_data_as_code$")
+    R.fn(lc)
+    tp = [c for b in [lc] + list(lc.nested()) for c in b.calls if re.search(r"::track_pages$", c.callee)]
+    R.sites += len(tp)
+    if not tp:
+        R.bad("prov/track-pages-content/anchor-lost", "track_pages not found in load_data_as_code", [lc.where()])
+    else:
+        c = tp[0]
+        names = {str(x) for x in c.body.operand_sources(c.args[3])}
+        if any(x.endswith("memory_size") for x in names) and not any(x.endswith("content_size") for x in names):
+            R.bad("prov/track-pages-content", "load_data_as_code registers memory_size bytes as cell content with the snapshot context although only content_size bytes came from the cell; "
+                  "the zero padding is reloaded from the cell after a suspend/resume (F24)", [c.where()])
+        else:
+            R.ok("prov/track-pages-content", "only the bytes taken from the cell are registered as cell content", [c.where()])
+
+
+def _all_field_reads(b):
+    out = set()
+    for l in range(len(b.rec.get("locals") or [])):
+        try:
+            out |= {x[6:] for x in b.local_sources(l) if x.startswith("field:")}
+        except Exception:
+            pass
+    return out
+
+
 def run(F, S, R, tier):
     R.guard("prov/state-cycles", lambda: state_cycles(F, S, R))
+    R.guard("prov/resumed-budgets", lambda: resumed_budgets(F, S, R))
     R.guard("order/io-before-limit-error", lambda: pending_io_and_cycles(F, S, R))
     R.guard("fieldcov", lambda: fieldcov(F, S, R))
     n = T.run_tables(R, "table", F, TABLES)
